@@ -190,7 +190,7 @@ def _run_case(case, rec, mon=None):
     L = sorted({0, 1, max(fs - 1, 0), fs, fs + 1, max(fl - 1, 0), fl, fl + 1, width - 1, width, width + 1, 2 * width - 1, 2 * width + 1, 3 * width,
                 int(rng.integers(1, 3 * width + 8))})
     pick = list(rng.choice(L, size=min(case.get("n_signals", 5), len(L)), replace=False))
-    for N in pick:
+    for j, N in enumerate(pick):
         kind = str(rng.choice(gen.SIGNAL_KINDS))
         dt = [np.float64, np.float64, np.float32, np.float16, np.longdouble][int(rng.integers(5))]
         if dt == np.float16 and kind == "noise_big":
@@ -198,7 +198,10 @@ def _run_case(case, rec, mon=None):
         x = gen.signal(rng, int(N), kind, dt, views=True)
         x.setflags(write=False)
         try:
-            comp.compute_full(x)
+            if j % 3 == 2:
+                comp.compute_full(signal=x)  # the same call spelled with the keyword
+            else:
+                comp.compute_full(x)
         except Exception:
             pass
     rec.sample({"cfg": cfg, "fs": int(fs), "frame_length": int(fl), "width": int(width), "lengths": [int(n) for n in pick]})
